@@ -146,8 +146,8 @@ def check(ctx):
         ("header::Header", "content_type"): "core::option::Option<common::RegisteredLabel<iana::CoapContentFormat>>",
         ("key::CoseKey", "kty"): "common::RegisteredLabel<iana::KeyType>",
         ("key::CoseKey", "alg"): "core::option::Option<common::RegisteredLabelWithPrivate<iana::Algorithm>>",
-        ("key::CoseKey", "key_ops"): "alloc::collections::BTreeSet<common::RegisteredLabel<iana::KeyOperation>>",
-        ("cwt::ClaimsSet", "rest"): "alloc::vec::Vec<(common::RegisteredLabelWithPrivate<iana::CwtClaimName>, ciborium::Value)>",
+        ("key::CoseKey", "key_ops"): "alloc::collections::btree::set::BTreeSet<common::RegisteredLabel<iana::KeyOperation>>",
+        ("cwt::ClaimsSet", "rest"): "alloc::vec::Vec<(common::RegisteredLabelWithPrivate<iana::CwtClaimName>, ciborium::value::Value)>",
         ("context::CoseKdfContext", "algorithm_id"): "common::RegisteredLabelWithPrivate<iana::Algorithm>",
     }
     for (adt, field), ty in sorted(want.items()):
